@@ -114,6 +114,8 @@ def work(case):
                         fail = dict(signature="singleton-restart-missed", step=k,
                                     what="the active run finished on an event the first block accepts, but no new run started",
                                     detail=None)
+    if fail is None:
+        fail = pC12.finished_stays_out(case)
     return out, nontrivial, fail
 
 
